@@ -1090,7 +1090,12 @@ class MultiTestResult(TestResult):
     def __init__(self, *results):
         # Setup _results first, as the base class __init__ assigns to failfast.
         self._results = list(map(ExtendedToOriginalDecorator, results))
+        # That assignment is forwarded to every wrapped result: put back what
+        # each of them had, so that wrapping does not switch failfast off.
+        failfast = [result.failfast for result in self._results]
         super().__init__()
+        for result, value in zip(self._results, failfast):
+            result.failfast = value
 
     def __repr__(self):
         return "<{} ({})>".format(
